@@ -586,6 +586,68 @@ func cmdRun(args []string) error {
 	return nil
 }
 
+// realtime: NO hooks in the schedule - the real Queue.Start() goroutines (queue loop, loader) and the real
+// msgstorage.NewMsgStorage 20 ms tickers.  One scenario, two timings: limit 2, push 1-4 (4 overflows), pop 3
+// times, [pause], push 5, drain with pauses.  With a pause shorter than the store tick between the overflow and
+// the pops the loader runs inside the flush window (finding F24); with a longer pause it does not.
+func realtimeOnce(step time.Duration) (string, error) {
+	s := &loaderSync{}
+	pdb, tdb := newMemDB(s, true), newMemDB(s, false)
+	pst := msgstorage.NewMsgStorage(pdb, amqp.ProtoRabbit)
+	tst := msgstorage.NewMsgStorage(tdb, amqp.ProtoRabbit)
+	q := queue.NewQueue(qname, 0, false, false, false, config.Queue{ShardSize: 2, MaxMessagesInRAM: 2}, pst, tst, make(chan string, 16))
+	if err := q.Start(); err != nil {
+		return "", err
+	}
+	ord := map[uint64]int{}
+	push := func(n int) {
+		m := newMessage(false, n)
+		q.Push(m)
+		ord[m.ID] = n
+		time.Sleep(step)
+	}
+	var got []string
+	pop := func() bool {
+		m := q.Pop()
+		time.Sleep(step)
+		if m == nil {
+			return false
+		}
+		got = append(got, strconv.Itoa(ord[m.ID]))
+		return true
+	}
+	for n := 1; n <= 4; n++ {
+		push(n)
+	}
+	for i := 0; i < 3; i++ {
+		pop()
+	}
+	time.Sleep(60 * time.Millisecond) // loader goroutine and store ticker have had their turns
+	push(5)
+	for i := 0; i < 8; i++ {
+		if !pop() {
+			time.Sleep(60 * time.Millisecond)
+		}
+	}
+	sw, _, _, ql := q.VerifSwapState()
+	q.Stop()
+	return fmt.Sprintf("step=%s deliveries=%s queueLength=%d swapped=%v", step, strings.Join(got, ","), ql, sw), nil
+}
+
+// every operation followed by a pause of 0 (publisher and consumer faster than the 20 ms store tick) or 45 ms (slower)
+func cmdRealtime(args []string) error {
+	for _, p := range []time.Duration{0, 45 * time.Millisecond} {
+		for i := 0; i < 3; i++ {
+			l, err := realtimeOnce(p)
+			if err != nil {
+				return err
+			}
+			fmt.Println(l)
+		}
+	}
+	return nil
+}
+
 func cmdReplay(args []string) error {
 	if len(args) != 1 {
 		return fmt.Errorf("usage: replay '<durable>|<shard>|<maxram>|<labels or script>'")
@@ -623,6 +685,8 @@ func main() {
 		err = cmdRun(os.Args[2:])
 	case "replay":
 		err = cmdReplay(os.Args[2:])
+	case "realtime":
+		err = cmdRealtime(os.Args[2:])
 	case "replay-bunt":
 		engine = "bunt"
 		err = cmdReplay(os.Args[2:])
